@@ -53,10 +53,37 @@ def run(ctx):
             # a limit on the length difference is symmetric in the two series and monotone in the limit
             kw["max_length_diff"] = max(1, abs(r - c) + rng.choice([-1, 0, 0, 1]))
             ctx.count("cases_with_max_length_diff")
-        for eng in ("py", "c"):
+        if rng.random() < 0.08 and r != c and not nd:
+            # aliased arguments: the shorter series is a prefix view of the longer one's buffer
+            if r > c:
+                s2 = s1[:c]
+            else:
+                s1 = s2[:r]
+            ctx.count("aliased_prefix_view_cases")
+        def first(r_):
+            return r_[0] if isinstance(r_, tuple) else r_     # a bare inf is returned when max_length_diff is exceeded
+
+        engines = ["py", "c"]
+        if not long_:
+            # the distance returned next to the accumulated-cost matrix is a DTW distance too (full and compact C storage)
+            engines += [rng.choice(["py_wps", "c_wps", "c_wps_compact"])]
+        for eng in engines:
             if eng == "py" and long_ and rng.random() < 0.5:
                 continue
-            f = dtw.distance if eng == "py" else dtw.distance_fast
+            if eng == "py":
+                f = dtw.distance
+            elif eng == "c":
+                f = dtw.distance_fast
+            elif eng == "py_wps":
+                def f(a_, b_, **k_):
+                    return first(dtw.warping_paths(a_, b_, **k_))
+            elif eng == "c_wps":
+                def f(a_, b_, **k_):
+                    return first(dtw.warping_paths_fast(a_, b_, **k_))
+            else:
+                def f(a_, b_, **k_):
+                    return first(dtw.warping_paths_fast(a_, b_, compact=True, **k_))
+            ctx.count("law_engine:" + eng)
 
             def d(a, b, **k):
                 ctx.current("%s %r %r %r" % (eng, a.tolist(), b.tolist(), k))
